@@ -564,8 +564,8 @@ theorem ae1_crc_enforced {H ι} (upd : H → Bytes → H) (fin : H → UInt32)
 
 /-- **Exactly which AES records are accepted**: data size 7, vendor id "AE" (0x4541), vendor version
 1 or 2, strength 1, 2 or 3 — and then the entry's method becomes the record's method field, the mode
-and version are stored, and the cursor moves 14 bytes (sic: 7 read + 7 skipped, `len_left` is not
-decremented in this arm). -/
+and version are stored, and the cursor moves exactly the 7 bytes of the record (K-C repaired: `len_left`
+is decremented in this arm too; before, 7 further bytes were skipped). -/
 theorem aes_extra_parse_spec (len : UInt16) (rest : Bytes) (st : ExtraSt) :
     (∃ k st', aesRec len rest st = (.ok k, st')) ↔
       (len = 7 ∧ ∃ v0 v1 i0 i1 m c0 c1 tail, rest = v0 :: v1 :: i0 :: i1 :: m :: c0 :: c1 :: tail ∧
@@ -624,7 +624,7 @@ theorem aes_extra_parse_spec (len : UInt16) (rest : Bytes) (st : ExtraSt) :
 theorem aes_extra_fields (v0 v1 m c0 c1 : UInt8) (tail : Bytes) (st : ExtraSt)
     (hver : mk16 v0 v1 = 1 ∨ mk16 v0 v1 = 2) (hm : m = 1 ∨ m = 2 ∨ m = 3) :
     aesRec 7 (v0 :: v1 :: 0x41 :: 0x45 :: m :: c0 :: c1 :: tail) st =
-      (.ok 14, { st with
+      (.ok 7, { st with
         aesMode := some (if m = 1 then .aes128 else if m = 2 then .aes192 else .aes256,
                          if mk16 v0 v1 = 1 then .ae1 else .ae2),
         method := Method.fromU16 (mk16 c0 c1) }) := by
@@ -825,14 +825,27 @@ example : errOf (parseEntryExtra (st99 100 50) []) = some .invalidArchive ∧
     errOf (parseEntryExtra (st99 100 50) [0x01, 0x99, 7, 0, 2, 0, 0x41, 0x45, 4, 8, 0]) = some .invalidArchive := by
   decide
 
-/-- **Observation K-C** (modelled, not part of the property): ZIP64 record first, AES record second
-is read correctly; AES record first makes the cursor skip 7 bytes into the ZIP64 record, whose sizes
-are lost — `compressed_size` stays 0xFFFFFFFF. -/
-theorem kc_aes_then_zip64_loses_sizes :
+/-- **K-C, repaired** (a C03 / C16 defect of the crate as found: the 0x9901 arm of `parse_extra_field` did not
+decrement `len_left`, so 7 further bytes were skipped behind an AES record — an AES record FOLLOWED by the
+ZIP64 record lost the ZIP64 sizes, `compressed_size` stayed 0xFFFFFFFF; `fixes/kc-aes-extra-consumed.patch`,
+regression `seeded/revert-kc-aes-extra-consumed`).  Now the order of the two records does not matter. -/
+theorem kc_aes_zip64_any_order :
     let z64 : Bytes := [1, 0, 16, 0] ++ le64 50 ++ le64 100
     let aes : Bytes := [0x01, 0x99, 7, 0, 2, 0, 0x41, 0x45, 3, 0, 0]
-    ((okVal (parseEntryExtra (st99 0xFFFFFFFF 0xFFFFFFFF) (z64 ++ aes))).map (·.compressedSize)) = some 100 ∧
-    ((okVal (parseEntryExtra (st99 0xFFFFFFFF 0xFFFFFFFF) (aes ++ z64))).map (·.compressedSize)) = some 0xFFFFFFFF := by
+    okVal (parseEntryExtra (st99 0xFFFFFFFF 0xFFFFFFFF) (z64 ++ aes)) =
+      some { st99 100 50 with largeFile := true, aesMode := some (.aes256, .ae2), method := .stored } ∧
+    okVal (parseEntryExtra (st99 0xFFFFFFFF 0xFFFFFFFF) (aes ++ z64)) =
+      some { st99 100 50 with largeFile := true, aesMode := some (.aes256, .ae2), method := .stored } := by
+  decide
+
+/-- ... nor do other records behind the AES record get misread (before the repair the cursor landed 7 bytes
+into the record that follows). -/
+example :
+    let aes : Bytes := [0x01, 0x99, 7, 0, 1, 0, 0x41, 0x45, 1, 8, 0]
+    let other : Bytes := [0xfe, 0xca, 9, 0, 1, 0, 8, 0, 0xff, 0xff, 0xff, 0xff, 0]
+    let z64 : Bytes := [1, 0, 8, 0] ++ le64 77
+    okVal (parseEntryExtra (st99 0xFFFFFFFF 5) (aes ++ other ++ z64)) =
+      some { st99 77 5 with largeFile := true, aesMode := some (.aes128, .ae1), method := .deflated } := by
   decide
 
 -- open-time decisions on concrete entries
